@@ -159,8 +159,18 @@ func c19(x *ctx) {
 		{Name: "kk", Arguments: []gen.CfgArg{{Type: []string{"Symbol"}}}, ReturnType: ret("Bool")}}}
 	gsubB := gen.CfgClass{Frame: "Builtin", Class: "Gsub", InstanceMethods: []gen.CfgMethod{
 		{Name: "mm", Arguments: []gen.CfgArg{{Type: []string{"String"}}, {Type: []string{"String"}}}, ReturnType: ret("Float")}}}
+	// overloads of one class method spread over the two fragments: keyword-only declarations that share the
+	// early-sorting key `a:`, and positional declarations of different types
+	kw := func(k, t string) gen.CfgArg { return gen.CfgArg{Key: k, Type: []string{t}} }
+	gsubA.ClassMethods = append(gsubA.ClassMethods,
+		gen.CfgMethod{Name: "conf", Arguments: []gen.CfgArg{kw("a:", "Int"), kw("c:", "Int")}, ReturnType: ret("Int")},
+		gen.CfgMethod{Name: "conv", Arguments: []gen.CfgArg{{Type: []string{"Int"}}}, ReturnType: ret("String")})
+	gsubB.ClassMethods = append(gsubB.ClassMethods,
+		gen.CfgMethod{Name: "conf", Arguments: []gen.CfgArg{kw("a:", "Int"), kw("d:", "String")}, ReturnType: ret("String")},
+		gen.CfgMethod{Name: "conv", Arguments: []gen.CfgArg{{Type: []string{"String"}}}, ReturnType: ret("Int")})
 	gsubWhole := gsubA
 	gsubWhole.InstanceMethods = append(append([]gen.CfgMethod{}, gsubA.InstanceMethods...), gsubB.InstanceMethods...)
+	gsubWhole.ClassMethods = append(append([]gen.CfgMethod{}, gsubA.ClassMethods...), gsubB.ClassMethods...)
 	gleaf := gen.CfgClass{Frame: "Builtin", Class: "Gleaf", Extends: []string{"Gsub"}, ClassMethods: []gen.CfgMethod{newM("Gleaf")}, InstanceMethods: []gen.CfgMethod{
 		{Name: "ll", Arguments: []gen.CfgArg{}, ReturnType: ret("Symbol")}}}
 	genRef := gen.Merge(shipped, map[string]string{"gbase.json": gbase.JSON(), "gsub.json": gsubWhole.JSON(), "gleaf.json": gleaf.JSON()})
@@ -197,6 +207,10 @@ func c19(x *ctx) {
 		for mi, c := range calls {
 			genProgs = append(genProgs, gen.Prog{Name: fmt.Sprintf("./gcfg_%d_%d.rb", ci, mi), Src: "rv = " + cls + ".new\ndbtp rv." + c + "\n"})
 		}
+	}
+	for mi, c := range []string{"conf(a: 1, c: 2)", "conf(a: 1, d: \"s\")", "conf(d: \"s\", a: 1)", "conf(c: 2, a: 1)", "conf(a: 1)", "conv(1)", "conv(\"s\")", "conv(:q)",
+		"conf(a: 1, c: 2)\ndbtp Gsub.conf(a: 1, d: \"s\")", "conv(\"s\")\ndbtp Gsub.conv(1)"} {
+		genProgs = append(genProgs, gen.Prog{Name: fmt.Sprintf("./gcfg_cm_%d.rb", mi), Src: "dbtp Gsub." + c + "\n"})
 	}
 	x.metamorphic(func(emit func(*mItem)) {
 		for _, p := range genProgs {
@@ -286,6 +300,12 @@ func c20(x *ctx) {
 		// classes (also as undefined calls and unassigned reads)
 		{"frame-props", gen.CfgClass{Frame: "Xfr", Class: "Zzq", InstanceMethods: methods, ClassMethods: cmethods, InstanceProperties: props, InstanceVariables: ivars}},
 		{"builtin-props", gen.CfgClass{Frame: "Builtin", Class: "Zzq", InstanceMethods: methods, ClassMethods: cmethods, InstanceProperties: props, InstanceVariables: ivars}},
+		// classes that extend a stock class and redeclare its keyword-argument methods with other keyword types
+		{"extends-dir-keywords", gen.CfgClass{Frame: "Xfr", Class: "Zzq", Extends: []string{"Builtin::Dir"}, InstanceMethods: methods, ClassMethods: []gen.CfgMethod{
+			{Name: "glob", Arguments: []gen.CfgArg{{Type: []string{"String"}}, {Key: "base:", Type: []string{"Int"}}}, ReturnType: ret("Int")},
+			{Name: "chdir", Arguments: []gen.CfgArg{{Type: []string{"Int"}}}, ReturnType: ret("Int")}}}},
+		{"extends-test-keywords", gen.CfgClass{Frame: "Builtin", Class: "Zzq", Extends: []string{"Test"}, InstanceMethods: methods, ClassMethods: []gen.CfgMethod{
+			{Name: "keyword_json_test", Arguments: []gen.CfgArg{{Key: "name:", Type: []string{"String"}}}, ReturnType: ret("String")}}}},
 	}
 	type variant struct{ cfg, desc string }
 	var fixed []variant
